@@ -207,6 +207,13 @@ class Labels:
                 return set()
             if name == "resolve":
                 return {("norm-path" if a in ("raw-path", "abs-path") else a) for a in recv}
+            if name in ("get", "pop", "setdefault") and t[3]:
+                # a lookup: the key selects among what the container holds (the receiver's labels); what arrives is a stored
+                # value or the default, not the key
+                rest = set()
+                for a in t[3][1:]:
+                    rest |= self.of(a)
+                return recv | rest
             if name == "absolute":
                 # Path.absolute() prefixes the working directory but keeps '..' components: a third spelling - as long as the
                 # one the caller gave (minus its root), not normalised
